@@ -38,7 +38,11 @@ Preds == << N(1), N(2), N(0), NumE(Rat(3, 2)), Bin("div", N(0), N(0)), LastE, Bi
             Bin("eq", CountE(Rel(<<Step("preceding-sibling", T_any)>>)), N(1)),
             \* numeric predicates whose value depends on the context node
             PosE, Bin("add", CountE(Rel(<<Step("preceding-sibling", T_any)>>)), N(1)), Bin("sub", N(3), PosE),
-            Call(<<"n","u","m","b","e","r">>, <<AttrX>>), Bin("sub", Bin("add", LastE, N(1)), PosE) >>
+            Call(<<"n","u","m","b","e","r">>, <<AttrX>>), Bin("sub", Bin("add", LastE, N(1)), PosE),
+            \* position() / last() inside the arguments of another call keep the predicate's context
+            Call(<<"n","o","t">>, <<Bin("eq", PosE, LastE)>>), Call(<<"b","o","o","l","e","a","n">>, <<Bin("mod", PosE, N(2))>>), Call(<<"r","o","u","n","d">>, <<Bin("div", LastE, N(2))>>),
+            \* a numeric predicate without any number in its text: string-length(@x) is 1 where @x = "1" (and 0 elsewhere)
+            Call(<<"s","t","r","i","n","g","-","l","e","n","g","t","h">>, <<AttrX>>) >>
 PredAxes == IF Scale = "small"
             THEN <<"child", "descendant", "following-sibling", "ancestor", "preceding-sibling", "preceding", "attribute">>
             ELSE <<"child", "descendant", "descendant-or-self", "following-sibling", "following",
@@ -159,7 +163,10 @@ PathSuffixes == << <<Step("self", T_any)>>, <<Step("self", T_name("", <<"x">>))>
                <<Step("parent", T_node)>>, <<Step("ancestor", T_any)>>, <<Step("following-sibling", T_any)>>,
                <<Step("preceding", T_node)>>, <<Step("child", T_any), Step("child", T_any)>>, <<Self>>,
                <<StepP("preceding-sibling", T_any, <<N(1)>>)>>, <<Step("parent", T_node), Step("attribute", T_any)>>,
-               <<StepP("following", T_any, <<LastE>>)>>, <<Step("descendant-or-self", T_node), Step("child", T_text)>> >>
+               <<StepP("following", T_any, <<LastE>>)>>, <<Step("descendant-or-self", T_node), Step("child", T_text)>>,
+               \* predicated steps whose numbering must restart for every node of the prefix
+               <<StepP("child", T_any, <<Call(<<"s","t","r","i","n","g","-","l","e","n","g","t","h">>, <<AttrX>>)>>)>>,
+               <<StepP("ancestor-or-self", T_any, <<N(1)>>)>>, <<StepP("ancestor-or-self", T_any, <<AttrX, N(1)>>)>>, <<StepP("ancestor", T_any, <<LastE>>)>> >>
 Compose == Complete =>
   \A p \in Seq2Set(PathPrefixes), r \in Seq2Set(PathSuffixes) :
      EvalAt(1, Abs(p.steps \o r)).v = UNION {EvalAt(m, Rel(r)).v : m \in EvalAt(1, p).v}
